@@ -107,6 +107,24 @@ def generate(rng, tier):
     calls = [gen_call(rng) for _ in range(rng.choice([2, 3, 4, 6]))]
     if rng.random() < 0.5:
         calls.append(dict(calls[rng.randrange(len(calls))]))  # an exact repetition
+    if rng.random() < 0.12:
+        # A B C B: a call (B) right after a near-twin (A: same function and options, another origin / limits), then after an
+        # unrelated call (C) once more -- state kept between calls by the library shows as B != B
+        a = gen_call(rng)
+        while a["fn"] not in ("map", "histogram2d"):
+            a = gen_call(rng)
+        a["fail"], a["plot"] = None, False
+        b = dict(a)
+        if a["fn"] == "map":
+            a["use_origin"], b["use_origin"] = True, False
+            if a.get("direction") in (None, "x", "zyx"):
+                a["direction"] = b["direction"] = rng.choice(["top", "side", "top", "vec"])
+        else:
+            a["limits"], b["limits"] = True, False
+        c = gen_call(rng)
+        if c["fn"] == a["fn"]:
+            c = dict(c, direction="x") if c["fn"] == "map" else c
+        calls = [a, b, c, dict(b)] + calls[:1]
     case = {"layer_opts": layer_opts, "hist1d_layer": l1, "calls": calls, "res_dict": rng.choice([{"x": 6}, {"x": 4, "y": 5}, {"y": 3}]),
             "seed": 0}
     # option values that are set but falsy (0, 0.0): "set" must mean "is not None"
